@@ -66,6 +66,11 @@ REVERTS = [
     ('F70-key-framing-by-signature-version', '900764d', {'C11': ['key-frame:selected-by-signature-version']}),
     ('F72-iterator-stops-after-refused-framing', '836fe37', {'C17': ['S17-2:illegal-framing-stops-parser']}),
     ('F73-curve25519-legacy-leading-zero', 'cedd9d8', {'C05': ['S05-11:raw-mpi-only-from-parsed-data'], 'C07': ['S05-11:raw-mpi-only-from-parsed-data']}),
+    ('F74-encryptor-buffer-after-failed-fill', 'a2ea9ec', {'C09': ['S09-10:grown-stage-emptied-on-failed-fill'], 'C01': ['S09-10:grown-stage-emptied-on-failed-fill']}),
+    ('F75-cleartext-body-quadratic', '75aee54', {'C19': ['S19-4:no-rescan-of-accumulator:composed::cleartext::read_cleartext_body']}),
+    ('F76-v6-salt-length-at-sign', '4e11c98', {'C06': ['S06-9:salt-length-checked']}),
+    ('F77-ecdh-point-prefix', 'd079c9f', {'C05': ['S05-17:dropped-prefix-compared']}),
+    ('F78-v2-secret-checksum', 'b4f643c', {'C05': ['S05-18:v2-as-v3']}),
     ('F67-ecdh-zero-padding', '5930fe1', {'C12': ['ecdh:unpad-lower-bound']}),
     ('F68-armor-leading-dashes', 'cfc42e1', {'C10': ['S10-7:leading-text-skipped-to-full-opener']}),
 ]
